@@ -917,6 +917,7 @@ def run_shard(ctx):
                                   "c11s%d" % ctx.shard)
     space.split_every = 3
     space.odd_every = 5
+    space.lead_every = 3
     # plain packages for the family whose packages hold Python modules
     plain = packages.PackageSpace(os.path.join(ctx.tmp, "pkgs2"),
                                   "c11x%d" % ctx.shard)
